@@ -25,11 +25,11 @@ type mstream struct {
 
 type mobj struct {
 	Num    int
-	Dict   pdfgen.Dict   // for dictionaries and streams
-	Raw    []byte        // any other object, serialised (used when Dict == nil and Stream == nil)
-	Stream *mstream      // non-nil: stream object
-	InStm  bool          // place in the object stream (only non-stream objects)
-	Pre    []byte        // bytes written in front of "N 0 obj" (comments)
+	Dict   pdfgen.Dict // for dictionaries and streams
+	Raw    []byte      // any other object, serialised (used when Dict == nil and Stream == nil)
+	Stream *mstream    // non-nil: stream object
+	InStm  bool        // place in the object stream (only non-stream objects)
+	Pre    []byte      // bytes written in front of "N 0 obj" (comments)
 }
 
 type xrefStmSpec struct {
